@@ -70,13 +70,17 @@ def gas_pool():
     add([("H", 2), ("D", 1)], 1); add([("C", 2), ("H", 2)]); add([("C", 1), ("O", 2)]); add([("Si", 1)], 4)
     add([("H", 2)], 0, label="o"); add([("H", 2)], 0, label="p"); add([("H", 2), ("D", 1)], 1, label="o")
     add([("C", 1), ("N", 1)]); add([("H", 1), ("C", 1), ("N", 1)]); add([("N", 1), ("O", 1)]); add([("C", 1), ("S", 1)])
+    # condensed structural formulas: an element named more than once in one name
+    add([("C", 1), ("H", 3), ("O", 1), ("H", 1)]); add([("C", 1), ("H", 3), ("O", 1), ("H", 2)], 1)
+    add([("H", 1), ("C", 1), ("O", 1), ("O", 1), ("H", 1)]); add([("C", 1), ("H", 3), ("C", 1), ("N", 1)])
+    add([("C", 1), ("H", 3), ("O", 1), ("C", 1), ("H", 3)])
     return P
 
 
 def ice_pool(prefix="#"):
     P = []
     for parts in ([("H", 1)], [("H", 2)], [("C", 1), ("O", 1)], [("H", 2), ("O", 1)], [("C", 1), ("H", 4)],
-                  [("N", 1), ("H", 3)], [("O", 1), ("H", 1)], [("C", 1), ("O", 2)]):
+                  [("N", 1), ("H", 3)], [("O", 1), ("H", 1)], [("C", 1), ("O", 2)], [("C", 1), ("H", 3), ("O", 1), ("H", 1)]):
         P.append(mk(parts, ice=True, prefix=prefix))
     return P
 
